@@ -341,7 +341,7 @@ def gen(tier, rng):
         for ity, p, sl in q.sub:
             k = "S %s %s %s" % (ity, gt.patkey(p), sl)
             nd = ndyn(p)
-            if "P" in sl or "C" in sl or "K" in sl:
+            if any(c in gt.BOUNDS for c in sl):
                 pair_cases(out, k, p, sl, rng)
                 continue
             combos = list(itertools.product(range(0, 4), repeat=nd))
@@ -354,6 +354,9 @@ def gen(tier, rng):
             xs = fill(p, v)
             out.append("subext q %s ; %s %s" % (k, lst(v), lst([x for x in xs])))       # index == extent: out of range
             out.append("subext q %s ; %s %s" % (k, lst([5 + j for j in range(nd)]), lst([1 for _ in xs])))
+        # detail::submdspan_static_extent of strided_slice types (a pure function of the types: one case each)
+        for e in q.sst:
+            out.append("substat q SS %s ;" % " ".join(str(x) for x in e))
     table_block(out, q)
     # span
     span_cases(out, q, rng)
@@ -384,12 +387,26 @@ def gen(tier, rng):
 
 def pair_cases(out, k, p, sl, rng):
     """submdspan_extents with at least one (first, last) slice: tokens <dynamic extents> <first/index per
-    dimension> <last per dimension>"""
+    dimension> <last per dimension>.  A bound that is an integral constant in the slice type (gen_table.BOUNDS)
+    ignores its token; the run-time partner of a constant bound is drawn so that the range is valid."""
     nd = ndyn(p)
     pre = "subextp q %s ;" % k
-    combos = list(itertools.product(range(0, 5), repeat=nd))
+    mixed = any(c in gt.MIXED for c in sl)
+    combos = list(itertools.product(range(0, 6 if mixed else 5), repeat=nd))
     if len(combos) > 16:
         combos = [combos[0], combos[-1]] + rng.sample(combos, 10)
+    if mixed and nd:
+        # extents that contain every constant bound in use (2, 3): the in-domain region of the mixed forms
+        combos += [tuple([4] * nd), tuple([3] * nd), tuple(rng.randrange(3, 7) for _ in range(nd))]
+
+    def valid_range(c, x):
+        cf, cl = gt.BOUNDS.get(c, (None, None))
+        hi = x if cl is None else cl
+        f = cf if cf is not None else rng.randrange(0, max(hi, 0) + 1)
+        lo = f
+        last = cl if cl is not None else (rng.randrange(lo, x + 1) if lo <= x else lo)
+        return f, last
+
     for v in combos:
         xs = fill(p, v)
         picks = []
@@ -397,11 +414,18 @@ def pair_cases(out, k, p, sl, rng):
         picks.append(([0] * len(xs), list(xs)))
         picks.append((list(xs), list(xs)))
         picks.append(([0] * len(xs), [0] * len(xs)))
-        for _ in range(3):
-            fs = [rng.randrange(0, x + 1) for x in xs]
-            picks.append((fs, [rng.randrange(f, x + 1) for f, x in zip(fs, xs)]))
+        for _ in range(4 if mixed else 3):
+            fl = [valid_range(c, x) for c, x in zip(sl, xs)]
+            picks.append(([f for f, _ in fl], [la for _, la in fl]))
+        if mixed:
+            # the extreme valid run-time partner of every constant bound: first = 0 / last = extent
+            fl = []
+            for c, x in zip(sl, xs):
+                cf, cl = gt.BOUNDS.get(c, (None, None))
+                fl.append((cf if cf is not None else 0, cl if cl is not None else x))
+            picks.append(([f for f, _ in fl], [la for _, la in fl]))
         for fs, ls in picks:
-            ks = [(f if c == "P" else (rng.randrange(0, x) if x > 0 else 0)) for f, x, c in zip(fs, xs, sl)]
+            ks = [(f if c in gt.BOUNDS else (rng.randrange(0, x) if x > 0 else 0)) for f, x, c in zip(fs, xs, sl)]
             out.append("%s %s %s %s" % (pre, lst(v), lst(ks), lst(ls)))
             out.append("%s %s %s %s" % (pre.replace("subextp", "subfl", 1), lst(v), lst(ks), lst(ls)))
     # outside the standard's domain: last > extent, first > last, large values
